@@ -28,7 +28,9 @@ Out of scope (stated precisely): a spread at the top level of a fragment body (`
 
 * `recfragment_items_shape` — `responseItems c op = .ok (bodyItemsR …)`;
 * `recfragment_struct_shape` — `fragmentItems c g = .ok (struct of the body :: nested items)` for every reachable
-  fragment.
+  fragment;
+* `recfragment_items_shape_gen`, `recfragment_struct_shape_gen` — the same closed forms from their essential hypothesis
+  (`rBody` of the selection set at hand): they also cover fragments with spreads at the top level of their body.
 -/
 set_option linter.unusedSimpArgs false
 set_option linter.unusedVariables false
@@ -416,6 +418,44 @@ theorem recfragment_struct_shape (c : Ctx) (hn : c.o.normalization = .none) (g :
   rw [hon, ← bodyItemsR_not_lone c f.name (c.cs.camel f.name) hnl]
   apply H _ _ _ _ (C02.maxDepth c.q) (C02.frag_depth_le c.q f hmem) _ (calcFuel_Sb c)
     (by rw [rBody_not_lone hnl]; exact hv)
+  apply C02.le_foldl_add
+  left
+  simp only [List.mem_append, List.mem_map]
+  exact .inl ⟨f, hmem, rfl⟩
+
+/-! ## the closed form does not need the restriction on fragment bodies
+
+Both shape theorems only use that the selection set at hand is an object-level selection set of the class
+(`rBody`): they hold verbatim for fragments **with spreads at the top level of their body** (nested flattened
+members; a body that is a lone spread is a type alias), i.e. for the full class of part 1 of the task.  Only the
+serde theorems (parts B–D) need `fragBodyOk`'s "no spread at the top level of a fragment body". -/
+
+/-- `recfragment_items_shape` from its essential hypotheses -/
+theorem recfragment_items_shape_gen (c : Ctx) (op : ROperation) (hop : op ∈ c.q.operations)
+    (hn : c.o.normalization = .none) (hb : rBody c.s c.q c.o (.object op.objectId) op.sels = true) :
+    responseItems c op = .ok (bodyItemsR c "ResponseData" (c.cs.camel op.name) op.sels) := by
+  have H := (calc_rec c hn (C02.totalSize c.q) (c.s.objects.length + C02.maxUnion c.s)
+    (C02.variants_length_le c.s) (calcFuel c.s c.q)).1
+  apply H _ _ _ _ (C02.maxDepth c.q) (C02.op_depth_le c.q op hop) _ (calcFuel_Sb c) hb
+  apply C02.le_foldl_add
+  left
+  simp only [List.mem_append, List.mem_map]
+  exact .inr ⟨op, hop, rfl⟩
+
+/-- the items of **any** fragment on an object type whose body is an object-level selection set of the class
+    (spreads anywhere, recursion included): an alias for a lone spread, otherwise the struct with one (boxed when
+    recursive) flattened member per spread and the nested items -/
+theorem recfragment_struct_shape_gen (c : Ctx) (hn : c.o.normalization = .none) (g : Nat) (f : RFragment) (i : Nat)
+    (hf : c.q.fragments[g]? = some f) (hon : f.on = .object i)
+    (hb : rBody c.s c.q c.o (.object i) f.sels = true) :
+    fragmentItems c g = .ok (bodyItemsR c f.name (c.cs.camel f.name) f.sels) := by
+  unfold fragmentItems
+  simp only [getFragment_of hf, bind, Except.bind]
+  have hmem : f ∈ c.q.fragments := List.mem_of_getElem? hf
+  have H := (calc_rec c hn (C02.totalSize c.q) (c.s.objects.length + C02.maxUnion c.s)
+    (C02.variants_length_le c.s) (calcFuel c.s c.q)).1
+  rw [hon]
+  apply H _ _ _ _ (C02.maxDepth c.q) (C02.frag_depth_le c.q f hmem) _ (calcFuel_Sb c) hb
   apply C02.le_foldl_add
   left
   simp only [List.mem_append, List.mem_map]
